@@ -200,6 +200,45 @@ def run(rep, tier, seed):
         rep.compared += 1
         if r != got and len(rep.broken) < 5:
             rep.broken.append('correspondence C04/fail-link: table %r text %r model %r implementation %r' % (T, text, r, got))
+    # interrupted names: a long name "A op S" whose tail S is a known name of its own; in "A <foreign words> op S" the long name
+    # does not occur, the operator word is an operator and S stands as a complete operand after it
+    nint = 400 if tier == 'thorough' else 100
+    reqs4, metas4 = [], []
+    for _ in range(nint):
+        w = rng.sample(wpool, 6)
+        op = rng.choice(['or', 'and', 'with'])
+        head = w[0:1] if rng.random() < 0.6 else w[0:2]
+        tail = [w[2]] if rng.random() < 0.5 else [w[2], w[3]]
+        foreign = [rng.choice(['v2', 'zz', 'only', 'my'])] + (['own'] if rng.random() < 0.3 else [])
+        long_name = ' '.join(head + [op] + tail)
+        Sname = ' '.join(tail)
+        T = [('k-long', [long_name], False), (Sname.upper(), [], op == 'with')]
+        if not gen.table_ok(T):
+            continue
+        left = ' '.join(head + foreign)
+        text = left + gen.gen_ws(rng, 1, 2) + gen.vary_case(rng, op) + gen.gen_ws(rng, 1, 2) + gen.vary_name(rng, Sname)
+        if ''.join(ch.lower() for ch in text) != text.lower():
+            continue
+        if op == 'with':
+            exp = [0, [1, [enc_str(left), 0], [enc_str(Sname.upper()), 1]]]
+        else:
+            exp = [1 if op == 'and' else 2, [[0, [0, [enc_str(left), 0]]], [0, [0, [enc_str(Sname.upper()), 0]]]]]
+        reqs4.append((4, [enc_table(T), 0, 0, 0, enc_str(text)]))
+        metas4.append((T, text, exp))
+    res4 = run_model(reqs4)
+    for (T, text, exp), r in zip(metas4, res4):
+        L = make_licensing(T)
+        rep.trail.append({'table': T, 'text': text, 'expected': None})
+        got = parsing.parse_outcome(L, text)
+        rep.case((repr(T), text), nontrivial=True, sample={'table': T, 'text': text, 'expected': str(build_expr(exp))})
+        rep.count('interrupted_names')
+        if got != [0, [exp]]:
+            rep.violations.append({'key': 'recognise', 'kind': 'text', 'table': T, 'text': text, 'expected': exp, '_at': len(rep.trail) - 1,
+                                   'what': 'a known name after an operator word that follows foreign words is not resolved: %r' % (got,)})
+            continue
+        rep.compared += 1
+        if r != got and len(rep.broken) < 5:
+            rep.broken.append('correspondence C04/interrupted: table %r text %r model %r implementation %r' % (T, text, r, got))
     # operator words inside longer words are not operators; longest wins, leftmost on a tie
     probes = [
         ([('mit', [], False)], 'orgpl and android', [1, [[0, [0, [enc_str('orgpl'), 0]]], [0, [0, [enc_str('android'), 0]]]]]),
